@@ -4,6 +4,36 @@ CLAIMED = {
          "Seeded histories of all mutating calls (state-aware, boundary-biased arguments) on a population of bitmaps in every reachable storage mix; after every step contents, Checked* booleans and panics are compared with a naive set model. Exploration is the right level: the history space is unbounded.",
          WORLD_NOTE, "DESIGN.md §3 C02"),
 }
+def W(tech, text, ref, level="exploration", note=None):
+    return (level, tech, text, note or WORLD_NOTE, ref)
+CLAIMED.update({
+ "C01": W("deterministic simulation: world histories produce operand configurations (COW-shared, zero-copy, decoded, run-optimised, self-aliased); set algebra vs reference model",
+          "Weak fit for the family (no fault or schedule dimension): the simulated world supplies the configuration half of the quantifier; every And/Or/Xor/AndNot (static, in-place, self) and cardinality shortcut executed in a history is compared with the model; a pairing scenario forces kind x kind x boundary cells and evidence counts them.", "DESIGN.md §3 C01"),
+ "C04": W("deterministic simulation: seeded call interleavings on cursor state machines vs model cursor",
+          "Cursors (forward, reverse, many, unset over windows) are world objects driven by seeded interleavings of HasNext/Next/PeekNext/AdvanceIfNeeded/NextMany with state-aware arguments; Iterate/Values/Backward/Unset/Ranges with seeded early stop; all compared with the model's sorted element / complement list.", "DESIGN.md §3 C04"),
+ "C05": W("deterministic simulation with fault injection: writer failure at enumerated offsets x 3 modes, reader chunking, trailing data, receiver reuse, 5 entry points",
+          "Streams of history-produced bitmaps are written through 4 entry points and read back through 5 (io.Reader delivered in seeded chunkings with a trailing sentinel, zero-copy buffers in guard-paged read-only mappings, fresh or reused receivers); byte accounting is exact; every writer failure offset is enumerated for streams <= 4 KiB (boundaries+sample above) in three failure modes and must surface as an error; the decoded bitmap joins the world.", "DESIGN.md §3 C05", "fault_enumeration"),
+ "C07": W("deterministic simulation: create/derive/mutate histories x COW switches; behavioural independence of every live bitmap after every step + structural sharing scan confirmed by write probes",
+          "After every step every bitmap that is not the declared output must still equal its model; argument slices must be unchanged; a hook-based scan finds chunks reachable from two owners without the flag and confirms behaviourally by writing through one and reading the other.", "DESIGN.md §3 C07"),
+ "C08": W("deterministic simulation with fault injection: caller buffers are PROT_READ mmap regions with guard pages; detach then PROT_NONE at seeded history points",
+          "Zero-copy bitmaps (FromBuffer, FromUnsafeBytes, FrozenView, no-copy FromDense) live over read-only mappings while the full mutation/algebra/aggregate mix runs on them and on bitmaps derived from them; a stray write faults with the address and the operation; at a seeded point dependants are detached or dropped and the buffer becomes PROT_NONE, so any residual dependency faults on first touch; the collector is fired as a step.", "DESIGN.md §3 C08"),
+ "C09": W("deterministic simulation: Validate() plus independent invariant walk after every step of every history, round trips included",
+          "Closure of well-formedness over reachable states: after each step the outputs must pass Validate() and an independent walk over the hook's chunk view (first-cause attribution with rebuild).", "DESIGN.md §3 C09"),
+ "C10": W("deterministic simulation with fault injection on stored bytes: every truncation point, bit/byte/sector faults, structured illegal encodings via an independent codec, guard pages, six entry points",
+          "Valid streams come from world states; every proper prefix (<= 8 KiB, boundaries+sample above) must be rejected by each portable entry point; corrupted streams must yield error or success without panic/fault; on success + Validate()==nil a consistency battery (queries, iterators, algebra, re-serialisation) must hold; MustReadFrom must mirror ReadFrom.", "DESIGN.md §3 C10", "fault_enumeration"),
+ "C11": W("deterministic simulation: aggregates as world transitions over list shapes and worker counts vs model fold (seeded scheduler runs in C12's engine)",
+          "FastOr/FastAnd/HeapOr/HeapXor/ParOr/ParAnd/ParHeapOr/AndAny over lists with empties, duplicates, singletons, keys at the top of the key space, worker counts 0..9; result vs fold of the model and Validate.", "DESIGN.md §3 C11"),
+ "C13": W("deterministic simulation with fault enumeration: FreezeTo destination sizes enumerated, three writers compared, independent layout parse, view over read-only mapping continues in the world",
+          "Freeze == FreezeTo == WriteFrozenTo byte-wise with exact sizes; every too-small destination (all sizes when <= 1 KiB) must fail without touching the buffer; an independent parser of the CRoaring layout must read back the model; the frozen view validates, equals the model and keeps living in the world under copying writes and collections.", "DESIGN.md §3 C13", "fault_enumeration"),
+ "C14": W("deterministic simulation: size bound as an invariant over histories, before and after RunOptimize",
+          "After every step the serialized size of each output is compared with the README bound and BoundSerializedSizeInBytes at x=max+1, as is and after RunOptimize on a clone; threshold scenarios steer chunks to 4095/4096/4097 values.", "DESIGN.md §3 C14"),
+ "C16": W("deterministic simulation: no-copy dense words in a PROT_READ region under later mutation; offset/flip/dense transforms as world transitions vs model",
+          "AddOffset64 for offsets across 0 and 2^32, static Flip, ToDense/WriteDenseTo/FromDense/FromBitSet with both copy modes and partial last chunks are compared with the model; no-copy imports keep their words in a read-only mapping while the bitmap is mutated.", "DESIGN.md §3 C16"),
+ "C17": W("deterministic simulation: 64-bit histories (buckets appear, empty out, disappear; ranges crossing 2^32) vs uint64 reference model",
+          "The whole 64-bit API (algebra static/in-place/self, point/bulk/range mutation with Checked*, rank/select/extrema, iterators with peek/advance, static Flip, FastOr/FastAnd/ParOr) runs in seeded histories over buckets {0,1,0x7FFFFFFF,0x80000000,0xFFFFFFFF,random}; contents and query results vs a map[uint32]->set model after every step; recovered panics are violations.", "DESIGN.md §3 C17"),
+ "C18": W("deterministic simulation with fault injection: 64-bit streams truncated at every offset, bucket-count/key/inner-cookie corruption, 4 entry points, chunked readers, address-space cap",
+          "Byte accounting and round trips through 4x4 entry points (fresh/reused receivers, read-only guard-paged buffers), Validate on library-made bitmaps and round trips; every proper prefix (<= 6000 bytes) and count/key/cookie corruptions must give error-or-bitmap, never panic, fatal error or hang (workers run under an address-space limit and a watchdog; a run that kills its process is reproduced from its seed and reported).", "DESIGN.md §3 C18", "fault_enumeration"),
+})
 NOTYET = "not claimed yet: check under construction in this session (see DESIGN.md §9 build order)"
 NA = {
  "C03": "pure function of (bitmap, argument): no schedule, fault, clock or history in the statement — not a simulation target (DESIGN.md §7)",
